@@ -43,14 +43,35 @@ type c19Case struct {
 	Cls  []string `json:"cls"`
 }
 
+const c19Canary = 40 // spare capacity behind every argument, filled with 0xC5
+
+// arg returns argument i as a slice with SPARE CAPACITY: the bytes behind
+// len() belong to the caller (think of a pk||proof wire buffer) and must not
+// be written by the callee (e.g. through append(arg, ...)).
 func (c c19Case) arg(i int) []byte {
-	if len(c.Args[i]) == 0 {
-		if c.Nil[i] {
-			return nil
-		}
-		return []byte{}
+	if len(c.Args[i]) == 0 && c.Nil[i] {
+		return nil
 	}
-	return append([]byte(nil), c.Args[i]...)
+	n := len(c.Args[i])
+	b := make([]byte, n+c19Canary)
+	copy(b, c.Args[i])
+	for j := n; j < len(b); j++ {
+		b[j] = 0xc5
+	}
+	return b[:n]
+}
+
+func c19CanaryIntact(a []byte) bool {
+	if a == nil {
+		return true
+	}
+	full := a[:cap(a)]
+	for _, v := range full[len(a):] {
+		if v != 0xc5 {
+			return false
+		}
+	}
+	return true
 }
 
 type c19Row struct {
@@ -1140,6 +1161,9 @@ func c19Check(c c19Case) h.Result {
 	for i := range a {
 		if row.Nominal[i] != -1 && !bytes.Equal(a[i], saved[i]) && c.Row != "scalar.Scalar.ToBytes" {
 			r.Fail(c.Row+":input-slice-modified", "argument %d", i)
+		}
+		if !c19CanaryIntact(a[i]) {
+			r.Fail(c.Row+":wrote-into-spare-capacity-of-input-slice", "argument %d (len %d): bytes behind len() of the caller's slice were overwritten", i, len(a[i]))
 		}
 	}
 	return r.Result()
